@@ -56,9 +56,12 @@ OPS = [
     # thorough only
     ("celements",  "X.celements()",        "t", "%s.celements()"),
     ("const_elements", "X.const_elements()", "t", "%s.const_elements()"),
-    ("blocked",    "X.blocked(0, 2)",      "t", "%s.blocked(0, 2)"),
+    ("blocked",    "X.blocked(0, 2)",      "q", "%s.blocked(0, 2)"),
     ("sliced3",    "X.sliced(0, 2, 1)",    "t", "%s.sliced(0, 2, 1)"),
-    ("reindexed",  "X.reindexed(1)",       "t", "%s.reindexed(1)"),
+    ("reindexed",  "X.reindexed(1)",       "q", "%s.reindexed(1)"),
+    ("reindexed2", "X.reindexed(1, 1)",    "t", "%s.reindexed(1, 1)"),
+    ("stenciled",  "X.stenciled({0, 2})",  "t", "%s.stenciled({0, 2})"),
+    ("halved",     "X.halved()",           "t", "%s.halved()"),
     ("call_ii",    "X(0, 0)",              "q", "%s(0, 0)"),
     ("call_ri",    "X({0, 2}, 0)",         "q", "%s({0, 2}, 0)"),
     ("call_ir",    "X(0, {0, 2})",         "t", "%s(0, {0, 2})"),
